@@ -27,7 +27,7 @@ pub enum VOp { Push(u8), Extend(Vec<u8>), Truncate(usize), Clear, Reserve(usize)
 #[derive(Clone, Debug)]
 pub enum Op {
     New, Inline(Vec<u8>), TryInline(Vec<u8>), WithCapacity(usize), Borrowed(Vec<u8>), FromSlice(Vec<u8>), FromVec(Vec<u8>, usize), FromUtf8(Vec<u8>),
-    Clone(usize), Slice(usize, Bound<usize>, Bound<usize>), TrySlice(usize, Bound<usize>, Bound<usize>), SliceRef(usize, usize, usize), SliceRefForeign(usize, bool),
+    Clone(usize), Slice(usize, Bound<usize>, Bound<usize>), TrySlice(usize, Bound<usize>, Bound<usize>), SliceRef(usize, usize, usize), SliceRefU(usize, usize, usize), SliceRefForeign(usize, bool),
     Push(usize, u32), PushSlice(usize, Vec<u8>), Pop(usize), Truncate(usize, usize), Clear(usize), ShrinkTo(usize, usize), ShrinkToFit(usize),
     AsMutWrite(usize, usize, u8), ToMutWrite(usize, usize, u8), MakeAscii(usize, bool), ToAscii(usize, bool), Repeat(usize, usize),
     Mutate(usize, Vec<VOp>, bool),
@@ -54,7 +54,7 @@ impl Op {
             WithCapacity(n) => format!("OWithCapacity {}", n), Borrowed(x) => format!("OBorrowed {}", coq_bytes(x)), FromSlice(x) => format!("OFromSlice {}", coq_bytes(x)),
             FromVec(x, k) => format!("OFromVec {} {}", coq_bytes(x), k), FromUtf8(x) => format!("OFromUtf8 {}", coq_bytes(x)),
             Clone(h) => format!("OClone {}", h), Slice(h, s, e) => format!("OSlice {} {} {}", h, cb(*s), cb(*e)), TrySlice(h, s, e) => format!("OTrySlice {} {} {}", h, cb(*s), cb(*e)),
-            SliceRef(h, o, n) => format!("OSliceRef {} {} {}", h, o, n), SliceRefForeign(h, t) => format!("OSliceRefForeign {} {}", h, t),
+            SliceRef(h, o, n) | SliceRefU(h, o, n) => format!("OSliceRef {} {} {}", h, o, n), SliceRefForeign(h, t) => format!("OSliceRefForeign {} {}", h, t),
             Push(h, c) => format!("OPush {} {}", h, c), PushSlice(h, x) => format!("OPushSlice {} {}", h, coq_bytes(x)), Pop(h) => format!("OPop {}", h),
             Truncate(h, n) => format!("OTruncate {} {}", h, n), Clear(h) => format!("OClear {}", h), ShrinkTo(h, n) => format!("OShrinkTo {} {}", h, n), ShrinkToFit(h) => format!("OShrinkToFit {}", h),
             AsMutWrite(h, i, b) => format!("OAsMutWrite {} {} {}", h, i, b), ToMutWrite(h, i, b) => format!("OToMutWrite {} {} {}", h, i, b),
@@ -128,7 +128,7 @@ impl<B: Backend> Pool<B> {
         let is_str = self.is_str;
         // ops on a dead handle are skipped on both sides
         let target = match op {
-            Clone(h) | Slice(h, ..) | TrySlice(h, ..) | SliceRef(h, ..) | SliceRefForeign(h, ..) | Push(h, ..) | PushSlice(h, ..) | Pop(h) | Truncate(h, ..) | Clear(h)
+            Clone(h) | Slice(h, ..) | TrySlice(h, ..) | SliceRef(h, ..) | SliceRefU(h, ..) | SliceRefForeign(h, ..) | Push(h, ..) | PushSlice(h, ..) | Pop(h) | Truncate(h, ..) | Clear(h)
             | ShrinkTo(h, ..) | ShrinkToFit(h) | AsMutWrite(h, ..) | ToMutWrite(h, ..) | MakeAscii(h, ..) | ToAscii(h, ..) | Repeat(h, ..) | Mutate(h, ..) | IntoOwned(h)
             | IntoVec(h) | VecFrom(h) | IntoBorrowed(h) | AsBorrowed(h) | Drop(h) | ForceCount(h, ..) | RestoreCount(h) => Some(*h),
             _ => None,
@@ -194,13 +194,17 @@ impl<B: Backend> Pool<B> {
                     Err(m) => { alloc::set_window(false); if try_ || oracle.is_some() { self.v(format!("{:?} panicked: {}", op, m)); } Out::Panic }
                 }
             }
-            SliceRef(h, off, n) => {
+            SliceRef(h, off, n) | SliceRefU(h, off, n) => {
+                let unchecked = matches!(op, SliceRefU(..));
                 let src = self.hs[*h].as_ref().unwrap();
                 let whole = src.raw().as_slice();
                 if off + n > whole.len() { return Out::Skip; }
                 let sub: &[u8] = &whole[*off..*off + *n];
                 let sub: &'static [u8] = unsafe { std::mem::transmute(sub) };   // only used during the call below
-                let r = quiet_catch(AssertUnwindSafe(|| alloc::window(|| match src { H::Byt(b) => H::Byt(b.slice_ref(sub)), H::Str(b) => H::Str(b.slice_ref(st(sub))) })));
+                let r = quiet_catch(AssertUnwindSafe(|| alloc::window(|| match src {
+                    // the unchecked form is the adoption path of the str API (trim, split, ...): its precondition holds here
+                    H::Byt(b) => H::Byt(if unchecked { unsafe { b.slice_ref_unchecked(sub) } } else { b.slice_ref(sub) }),
+                    H::Str(b) => H::Str(if unchecked { unsafe { b.slice_ref_unchecked(st(sub)) } } else { b.slice_ref(st(sub)) }) })));
                 match r {
                     Ok(nh) => { let sh = self.shadow[*h].as_ref().unwrap()[*off..*off + *n].to_vec(); self.add(nh, sh) }
                     Err(m) => { alloc::set_window(false); self.v(format!("{:?} panicked on an in-range sub-slice: {}", op, m)); Out::Panic }
@@ -493,7 +497,7 @@ fn gen_op<B: Backend>(rng: &mut Rng, p: &Pool<B>, force_ok: bool) -> Op {
     match rng.below(40) {
         0..=4 => Op::Clone(h),
         5..=8 => { let keep = rng.chance(3, 4); let at = |i: usize| if keep { boundary(i) } else { i }; let s = gen_bound(rng, len, &at); let e = gen_bound(rng, len, &at); if rng.chance(1, 2) { Op::TrySlice(h, s, e) } else { Op::Slice(h, s, e) } }
-        9..=11 => { let a = boundary(rng.below(len + 1)); let b = boundary(a + rng.below(len - a + 1)); Op::SliceRef(h, a.min(b), b.max(a) - a.min(b)) }
+        9..=11 => { let a = boundary(rng.below(len + 1)); let b = if rng.chance(1, 3) { len } else { boundary(a + rng.below(len - a + 1)) }; let a = if rng.chance(1, 6) { 0 } else { a }; let (a, b) = (a.min(b), a.max(b)); if rng.chance(1, 2) { Op::SliceRefU(h, a, b - a) } else { Op::SliceRef(h, a, b - a) } }
         12 => Op::SliceRefForeign(h, rng.chance(1, 2)),
         13..=15 => if is_str { Op::Push(h, *rng.pick(&[0x61, 0xe9, 0x20ac, 0x1F980])) } else { Op::Push(h, rng.below(256) as u32) },
         16..=18 => { let n = *rng.pick(&[0, 1, 3, 10, 22, 24, 40]); Op::PushSlice(h, gen_bytes(rng, is_str, n)) }
@@ -562,12 +566,21 @@ fn run_case<B: Backend>(bk: &str, is_str: bool, ops_src: &mut dyn FnMut(&Pool<B>
     let mut steps: Vec<String> = vec![];
     let mut trace: Vec<String> = vec![];
     let mut nontrivial = false;
+    let mut used_with_capacity = false;
     let mut k = 0;
     let mut last = base;
     loop {
         let Some(op) = ops_src(&pool, k) else { break };
         k += 1;
         let before_err = alloc::snap().errors;
+        // C07 oracle inputs: is the source of a clone / slice a heap value whose count can still be incremented?
+        let share_probe: Option<(usize, [usize; 7], usize)> = match &op {
+            Op::Clone(h) | Op::Slice(h, ..) | Op::TrySlice(h, ..) | Op::SliceRef(h, ..) | Op::SliceRefU(h, ..) if pool.live(*h) =>
+                pool.hs[*h].as_ref().unwrap().raw().verif_repr().map(|r| (*h, r, pool.hs.len())),
+            _ => None,
+        };
+        if matches!(op, Op::WithCapacity(_)) { used_with_capacity = true; }
+        let pre = alloc::snap();
         breadcrumb(&format!("bytes {} bk={} ty={}: {} ; {} -> ?", case_desc, bk, if is_str { "str" } else { "byt" }, trace.join(" ; "), op.coq()));
         let out = pool.exec(&op);
         alloc::set_window(false);
@@ -581,6 +594,24 @@ fn run_case<B: Backend>(bk: &str, is_str: bool, ops_src: &mut dyn FnMut(&Pool<B>
         }
         last = s;
         if s.errors != before_err { pool.viol.push(format!("allocator monitor: {}", alloc::error_detail())); }
+        // C07: cloning, or slicing to more than the inline capacity, a shareable heap value allocates nothing and stays in the same buffer
+        if let (Some((_h, r, new_id)), Out::New(nid)) = (share_probe, &out) {
+            if *nid == new_id && bk != "BUnique" && r[6] < usize::MAX {
+                let piece = pool.hs[*nid].as_ref().unwrap().raw();
+                let long_piece = piece.len() > 23 || matches!(op, Op::Clone(_));
+                if long_piece {
+                    match piece.verif_repr() {
+                        Some(q) if q[0] == r[0] => {}
+                        other => pool.viol.push(format!("{} of a shareable heap value did not share its buffer (piece: {:?})", op.coq().split(' ').next().unwrap(), other.map(|q| q[0] == r[0]))),
+                    }
+                    if s.allocs != pre.allocs { pool.viol.push(format!("{} of a shareable heap value allocated {} block(s)", op.coq().split(' ').next().unwrap(), s.allocs - pre.allocs)); }
+                }
+            }
+        }
+        // C07: without any with_capacity in the history every value is normalised, and an empty value is never heap-backed
+        if !used_with_capacity {
+            for (i, h) in pool.hs.iter().enumerate() { if let Some(h) = h { let r = h.raw(); if !r.is_normalized() || (r.is_empty() && r.is_allocated()) { pool.viol.push(format!("h{} (len {}) is heap-backed although it is short and no with_capacity occurred in this history", i, r.len())); } } }
+        }
         let obs = pool.observe();
         if obs.contains(" 3 ") { nontrivial = true; }
         sum.evaluations += 1;
